@@ -40,6 +40,14 @@
   own (`ub`, undefined behaviour of pthread_mutex_unlock, modelled as an explicit flag; glibc
   releases the mutex).
 
+  The server may also be stopped at any time (`reb_simulation_stop_server`, server.c:736-754, event `xStop`): it
+  cancels and joins the server thread (which can only die at a cancellation point: in `accept`/`fgets` or while
+  writing the response, i.e. outside the mutex), then `free(r->server_data); r->server_data = NULL` — WITHOUT
+  taking the mutex.  The integrator dereferences `r->server_data` after its test at 842 (`need_copy` reads, the
+  lock, `mutex_locked_by_integrate = 1` at 875: program points `waitNC, wantLock, postLock`) and after its test at
+  896 (unlock, `mutex_locked_by_integrate = 0` at 901: `postUnlock`); a dereference after the free is recorded in
+  `memerr` (heap use after free).  A stop inside such an iteration also sets the history flag `racy`.
+
   Mathlib-free; `step` is executable and is what `drv_c19` runs on the traces logged by
   the `LD_PRELOAD` shim from the real library.
 -/
@@ -78,10 +86,12 @@ inductive IPc where
   | preLock    -- 842: about to read `r->server_data`
   | waitNC     -- 845: `while (need_copy==1) usleep(10)`
   | wantLock   -- 851: about to call / blocked in `pthread_mutex_lock`
+  | postLock   -- 853: lock returned, `r->server_data->mutex_locked_by_integrate = 1` pending
   | locked     -- 853-856: holds the mutex, step not yet started
   | stepping   -- 857: inside `reb_simulation_step`
   | stepped    -- 858-861: heartbeat, sigint test, still holds the mutex
-  | unlocked   -- 872-877: after `pthread_mutex_unlock`
+  | postUnlock -- 872: `pthread_mutex_unlock` returned, `r->server_data->mutex_locked_by_integrate = 0` (874) pending
+  | unlocked   -- 874-877: iteration finished
   | epi        -- 880: loop left, epilogue not yet writing
   | epiAdj     -- 880-884: epilogue `reb_simulation_synchronize`, `r->dt = last_full_dt`
   deriving DecidableEq, Repr, Inhabited
@@ -110,9 +120,10 @@ structure State where
   ilock    : Bool           -- the current iteration of the integrator took the mutex (read non-NULL at 842)
   racy     : Bool           -- history: the server was started inside an iteration that had not taken the mutex
   ub       : Bool           -- the integrator has called pthread_mutex_unlock on a mutex it did not own
+  memerr   : Bool           -- the integrator has dereferenced `r->server_data` after `reb_simulation_stop_server` freed it
   deriving DecidableEq, Repr, Inhabited
 
-def init : State := ⟨.idle, .accepting, none, false, boundary 0 0, none, 0, false, false, false, false⟩
+def init : State := ⟨.idle, .accepting, none, false, boundary 0 0, none, 0, false, false, false, false, false⟩
 
 /-! ### events -/
 
@@ -126,14 +137,17 @@ inductive Ev where
   | iSpin                  -- read `need_copy == 1`, `usleep(10)`
   | iSeeNC0                -- read `need_copy == 0`, leave the wait loop           (silent)
   | iLock                  -- `pthread_mutex_lock` returns
+  | iSetFlag               -- `r->server_data->mutex_locked_by_integrate = 1`              (silent)
   | iStepBegin             -- `reb_simulation_step` entered
   | iStepEnd               -- `reb_simulation_step` returns
   | iUnlock                -- 868: read `r->server_data` non-NULL, `pthread_mutex_unlock`
   | iSkipUnlock            -- 868: read `r->server_data` NULL, no unlock                   (silent)
+  | iClrFlag               -- `r->server_data->mutex_locked_by_integrate = 0`              (silent)
   | iEpiSync               -- epilogue calls `reb_simulation_synchronize`
   | iLeave                 -- `reb_simulation_integrate` returns
   -- another thread
   | xStart                 -- `reb_simulation_start_server`: `r->server_data` becomes non-NULL
+  | xStop                  -- `reb_simulation_stop_server`: server thread cancelled+joined, `server_data` freed, pointer NULL
   -- server
   | sReq                   -- a `/simulation` request has been parsed                (silent)
   | sSetNC                 -- `need_copy = 1`                                       (silent)
@@ -146,13 +160,13 @@ inductive Ev where
   deriving DecidableEq, Repr, Inhabited
 
 def Ev.isI : Ev → Bool
-  | .iEnter | .iChkBegin | .iChkSync | .iChkEnd _ | .iSeeSrv _ | .iSpin | .iSeeNC0 | .iLock
-  | .iStepBegin | .iStepEnd | .iUnlock | .iSkipUnlock | .iEpiSync | .iLeave => true
+  | .iEnter | .iChkBegin | .iChkSync | .iChkEnd _ | .iSeeSrv _ | .iSpin | .iSeeNC0 | .iLock | .iSetFlag
+  | .iStepBegin | .iStepEnd | .iUnlock | .iSkipUnlock | .iClrFlag | .iEpiSync | .iLeave => true
   | _ => false
 
 /-- events the shim cannot see (plain loads/stores of `need_copy`, socket I/O) -/
 def Ev.silent : Ev → Bool
-  | .iSeeNC0 | .iSeeSrv _ | .iSkipUnlock | .sReq | .sSetNC | .sClrNC | .sSent => true
+  | .iSeeNC0 | .iSeeSrv _ | .iSkipUnlock | .iSetFlag | .iClrFlag | .sReq | .sSetNC | .sClrNC | .sSent => true
   | _ => false
 
 /-- an unlocked write of `r` begins (the three places of the code that do it) -/
@@ -189,9 +203,14 @@ def step (s : State) : Ev → Option State
   | .iSpin =>
     if s.ipc = .waitNC ∧ s.needCopy = true then some s else none
   | .iSeeNC0 =>
-    if s.ipc = .waitNC ∧ s.needCopy = false then some { s with ipc := .wantLock } else none
+    -- reads r->server_data->need_copy: after a stop this is a read of freed memory (calloc'ed: whatever it holds now)
+    if s.ipc = .waitNC ∧ s.needCopy = false then some { s with ipc := .wantLock, memerr := s.memerr || !s.srvUp } else none
   | .iLock =>
-    if s.ipc = .wantLock ∧ s.owner = none then some { s with ipc := .locked, owner := some .I, ilock := true } else none
+    if s.ipc = .wantLock ∧ s.owner = none then
+      some { s with ipc := .postLock, owner := some .I, ilock := true, memerr := s.memerr || !s.srvUp }
+    else none
+  | .iSetFlag =>
+    if s.ipc = .postLock then some { s with ipc := .locked, memerr := s.memerr || !s.srvUp } else none
   | .iStepBegin =>
     if s.ipc = .locked then some { s with ipc := .stepping, sim := setPhase s.sim .inStep } else none
   | .iStepEnd =>
@@ -203,13 +222,15 @@ def step (s : State) : Ev → Option State
     -- locked, that is an unlock of a mutex the thread does not own: undefined behaviour, recorded in `ub`
     -- (glibc's default mutex is simply released, whoever held it)
     if s.ipc = .stepped ∧ s.srvUp = true then
-      if s.ilock = true ∧ s.owner = some .I then some { s with ipc := .unlocked, owner := none, ilock := false }
-      else if s.ilock = false then some { s with ipc := .unlocked, owner := none, ub := true }
-      else if s.ub = true then some { s with ipc := .unlocked, owner := none, ilock := false }   -- after UB: no guarantee left
+      if s.ilock = true ∧ s.owner = some .I then some { s with ipc := .postUnlock, owner := none, ilock := false }
+      else if s.ilock = false then some { s with ipc := .postUnlock, owner := none, ub := true }
+      else if s.ub = true then some { s with ipc := .postUnlock, owner := none, ilock := false }   -- after UB: no guarantee left
       else none
     else none
   | .iSkipUnlock =>
     if s.ipc = .stepped ∧ s.srvUp = false then some { s with ipc := .unlocked, ilock := false } else none
+  | .iClrFlag =>
+    if s.ipc = .postUnlock then some { s with ipc := .unlocked, memerr := s.memerr || !s.srvUp } else none
   | .iEpiSync =>
     if s.ipc = .epi then some { s with ipc := .epiAdj, sim := setPhase s.sim .inAdjust } else none
   | .iLeave =>
@@ -221,6 +242,14 @@ def step (s : State) : Ev → Option State
     if s.srvUp = false then
       some { s with srvUp := true,
                     racy := s.racy || (decide (s.ipc = .locked ∨ s.ipc = .stepping ∨ s.ipc = .stepped) && !s.ilock) }
+    else none
+  | .xStop =>
+    -- pthread_cancel + pthread_join: the server thread only dies at a cancellation point (accept / socket I/O), never while it
+    -- holds the mutex; then free(server_data) and the pointer is cleared — no lock is taken.  The integrator may be anywhere.
+    if s.srvUp = true ∧ (s.spc = .accepting ∨ s.spc = .sending) then
+      some { s with srvUp := false, spc := .accepting, owner := none, needCopy := false,
+                    racy := s.racy || decide (s.ipc = .waitNC ∨ s.ipc = .wantLock ∨ s.ipc = .postLock ∨ s.ipc = .postUnlock) ||
+                            (decide (s.ipc = .locked ∨ s.ipc = .stepping ∨ s.ipc = .stepped) && s.ilock) }
     else none
   -- ------------------------------------------------------------------ server
   | .sReq =>
@@ -283,12 +312,14 @@ def soloStep (s : Solo) : Ev → Option Solo
     else none
   | .iSeeSrv up => if s.ipc = .preLock then some ⟨if up then .waitNC else .locked, s.sim⟩ else none
   | .iSeeNC0 => if s.ipc = .waitNC then some ⟨.wantLock, s.sim⟩ else none
-  | .iLock => if s.ipc = .wantLock then some ⟨.locked, s.sim⟩ else none
+  | .iLock => if s.ipc = .wantLock then some ⟨.postLock, s.sim⟩ else none
+  | .iSetFlag => if s.ipc = .postLock then some ⟨.locked, s.sim⟩ else none
   | .iStepBegin => if s.ipc = .locked then some ⟨.stepping, setPhase s.sim .inStep⟩ else none
   | .iStepEnd =>
     if s.ipc = .stepping then
       some ⟨.stepped, { s.sim with phase := .atBoundary, steps := s.sim.steps + 1 }⟩ else none
-  | .iUnlock => if s.ipc = .stepped then some ⟨.unlocked, s.sim⟩ else none
+  | .iUnlock => if s.ipc = .stepped then some ⟨.postUnlock, s.sim⟩ else none
+  | .iClrFlag => if s.ipc = .postUnlock then some ⟨.unlocked, s.sim⟩ else none
   | .iSkipUnlock => if s.ipc = .stepped then some ⟨.unlocked, s.sim⟩ else none
   | .iEpiSync => if s.ipc = .epi then some ⟨.epiAdj, setPhase s.sim .inAdjust⟩ else none
   | .iLeave =>
@@ -314,7 +345,7 @@ structure Obs where
   nc : Option Bool
   deriving Repr, Inhabited
 
-def silentEvs : List Ev := [.iSeeNC0, .iSeeSrv true, .iSeeSrv false, .iSkipUnlock, .sReq, .sSetNC, .sClrNC, .sSent]
+def silentEvs : List Ev := [.iSeeNC0, .iSeeSrv true, .iSeeSrv false, .iSkipUnlock, .iSetFlag, .iClrFlag, .sReq, .sSetNC, .sClrNC, .sSent]
 
 def dedup (l : List State) : List State :=
   l.foldl (fun acc s => if acc.contains s then acc else acc ++ [s]) []
